@@ -12,6 +12,8 @@ import numpy as np  # noqa: E402
 import flodym  # noqa: E402
 from flodym import Dimension, DimensionSet, Flow, MFASystem, Process, StockArray  # noqa: E402
 from flodym.stocks import SimpleFlowDrivenStock  # noqa: E402
+from flodym.mfa_definition import StockDefinition  # noqa: E402
+from flodym.stock_helper import make_empty_stocks  # noqa: E402
 
 import impl_array  # noqa: E402
 
@@ -37,12 +39,22 @@ class Capture(logging.Handler):
 class Impl(impl_array.Impl):
     def __init__(self):
         super().__init__()
+        self.case_odd = False
         self.reset_sys()
 
     def reset_sys(self):
         self.procs, self.flows, self.stocks = [], [], []
+        self._built = None
 
     def build(self):
+        """odd cases: one system object serves every query of the case (checks must leave the system as
+        it is); even cases: a fresh object per query"""
+        if self.case_odd and self._built is not None:
+            return self._built
+        self._built = self._build()
+        return self._built
+
+    def _build(self):
         processes = {n: Process(name=n, id=i) for i, n in enumerate(self.procs)}
         alld = {}
         for _, _, _, dims, _ in self.flows:
@@ -59,6 +71,17 @@ class Impl(impl_array.Impl):
         stocks = {}
         for name, proc, dims, sv, iv, ov in self.stocks:
             mk = lambda v: StockArray(dims=dims, values=np.array(v, dtype=float).reshape(dims.shape))  # noqa: E731
+            if len(stocks) % 3 == 1 and len(set(dims.letters)) == len(dims.letters):
+                # the way a user's model gets its stocks: from a definition (either spelling of the
+                # process keyword), values filled in afterwards
+                kw = {("process_name" if len(stocks) % 2 else "process"): None if proc == "-" else proc}
+                sd = StockDefinition(name=name, dim_letters=tuple(dims.letters), time_letter=dims.letters[0],
+                                     subclass=SimpleFlowDrivenStock, **kw)
+                st = make_empty_stocks([sd], processes=processes, dims=dims_all)[name]
+                for attr, v in (("stock", sv), ("inflow", iv), ("outflow", ov)):
+                    getattr(st, attr).values[...] = np.array(v, dtype=float).reshape(dims.shape)
+                stocks[name] = st
+                continue
             stocks[name] = SimpleFlowDrivenStock(dims=dims, name=name, process=None if proc == "-" else processes[proc],
                                                  time_letter=dims.letters[0], stock=mk(sv), inflow=mk(iv), outflow=mk(ov))
         return MFASystem(dims=dims_all, parameters={}, processes=processes, flows=flows, stocks=stocks)
@@ -99,12 +122,14 @@ class Impl(impl_array.Impl):
         op = t[0]
         if op == "case":
             self.reset_sys()
+            self.case_odd = (int(t[1]) % 2 == 1) if t[1].isdigit() else False
             return super()._exec(t)
         if op == "sys_begin":
             self.reset_sys()
             return "ok"
         if op == "procs":
             self.procs = t[1:]
+            self._built = None
             return "ok"
         if op == "flow":
             dims = self.get(t[4], DimensionSet)
@@ -112,12 +137,14 @@ class Impl(impl_array.Impl):
             if len(vals) != int(np.prod(dims.shape)):
                 raise ValueError("count")
             self.flows.append((t[1], t[2], t[3], dims, vals))
+            self._built = None
             return "ok"
         if op == "stock":
             dims = self.get(t[3], DimensionSet)
             parts = " ".join(t[4:]).split(" | ")
             sv, iv, ov = [[fv(x) for x in p.split(" ") if x] for p in parts]
             self.stocks.append((t[1], t[2], dims, sv, iv, ov))
+            self._built = None
             return "ok"
         if op == "balance":
             mfa = self.build()
